@@ -98,7 +98,7 @@ static int op_lcm(int argc, tok_t *a, out_t *o) {
   if (argc != 8 || !all_num(argc, a) || !ids(a, 3, ix, -1)) return -1;
   vars_init(&V, a + 4);
   mpz_lcm(V.v[ix[0]], V.v[ix[1]], V.v[ix[2]]);
-  vars_out(o, &V, 0);
+  vars_out(o, &V, 1u << ix[0]);      /* the general arm ends in mpz_mul (r, g, v): free + allocate of r's block (mul.c:118-131) */
   vars_clear(&V); return 0;
 }
 static int op_invert(int argc, tok_t *a, out_t *o) {
